@@ -32,6 +32,7 @@ fn fuzz_opts() -> GraphOpts {
         mark_all: false,
         sized: true,
         wide: true,
+        mega: false,
     }
 }
 
